@@ -146,7 +146,7 @@ class MDPPEnv(DPPEnv):
     def _single_env_reward(self, td, actions):
         """Get reward for single environment. We"""
 
-        list_probe = torch.nonzero(td["probe"]).squeeze()
+        list_probe = torch.nonzero(td["probe"]).squeeze(-1)
         scores = torch.zeros_like(list_probe, dtype=torch.float32)
         for i, probe in enumerate(list_probe):
             # Get the decap scores for the probe location
